@@ -133,6 +133,21 @@ var scenarios = []scenario{
 		ops:   []scOp{{0, "send", "A"}, {0.1, "send", "A"}, {0.85, "send", "B"}},
 		reply: map[string]float64{"r1": 0.9, "r2": 0.1, "r3": 0.1}, end: 4.5, only: []string{"ws.Write>|2"}, prop: "C08", scale: 4, stall: 0.4, repeat: 6,
 		sigs: []string{"timeout-early", "timeout-of-unwritten", "concluded-twice", "never-concluded"}},
+	// S7b (C02): as S7 with a third request queued for A. If the stale expiry of r1 were taken for the time-out of r2 (written
+	// a moment before), r2 would be given up at once and r3 written while r2 - answered 0.5 T after its write - is still
+	// outstanding at the peer
+	{name: "s-stale-expiry-queue", server: true, clients: []string{"A", "B"},
+		ops:   []scOp{{0, "send", "A"}, {0.1, "send", "A"}, {0.15, "send", "A"}, {0.85, "send", "B"}},
+		reply: map[string]float64{"r1": 0.9, "r2": 0.5, "r3": 0.1, "r4": 0.1}, end: 5.0, only: []string{"ws.Write>|2"}, prop: "C02", scale: 4, stall: 0.4, repeat: 6,
+		sigs: []string{"two-outstanding", "written-twice", "write-order"}},
+	// fourteen clients whose requests all time out at the same moment while the pump is busy inside the first cancellation
+	// callback: the expiry events outnumber the room in the pump's timer channel (10); whoever has to wait for room must not
+	// hold anything the pump needs - all fourteen requests are reported as timed out and the endpoint goes idle
+	{name: "s-mass-timeout", server: true, clients: []string{"A", "B", "C", "D", "E", "F", "G", "H", "I", "J", "K", "L", "M", "N"},
+		ops: []scOp{{0, "send", "A"}, {0, "send", "B"}, {0, "send", "C"}, {0, "send", "D"}, {0, "send", "E"}, {0, "send", "F"}, {0, "send", "G"},
+			{0, "send", "H"}, {0, "send", "I"}, {0, "send", "J"}, {0, "send", "K"}, {0, "send", "L"}, {0, "send", "M"}, {0, "send", "N"}},
+		reply: map[string]float64{"r1": -1, "r2": -1, "r3": -1, "r4": -1, "r5": -1, "r6": -1, "r7": -1, "r8": -1, "r9": -1, "r10": -1, "r11": -1, "r12": -1, "r13": -1, "r14": -1},
+		end: 4.0, only: []string{"handler.cancel|1"}, prop: "C07", scale: 4, stall: 0.5, sigs: []string{"never-concluded"}},
 	// S11b: the pump is inside a slow Write of r1 while 24 more requests for A are accepted (the wake-up channel has room for 20)
 	// and r1 is answered: every SendRequest returns and all 25 requests are written and concluded
 	{name: "s-burst-while-pump-busy", server: true, clients: []string{"A"},
@@ -358,7 +373,15 @@ func runScenario(sc scenario, stallSite string, stallIdx int) schedResult {
 		if sc.noTimeout {
 			d.SetTimeout(0)
 		}
-		srv := ocppj.NewServer(fs, d, &gServerState{ServerState: ocppj.NewServerState(&sync.RWMutex{}), l: l}, core.Profile)
+		// the pending state is the dispatcher's own (guarded by the dispatcher's mutex, as in every default set-up) unless the
+		// scenario needs the gate inside the disconnection handler
+		var sh ocppj.ServerState
+		for _, o := range sc.only {
+			if strings.HasPrefix(o, "sstate.") {
+				sh = &gServerState{ServerState: ocppj.NewServerState(&sync.RWMutex{}), l: l}
+			}
+		}
+		srv := ocppj.NewServer(fs, d, sh, core.Profile)
 		srv.SetDialect(ocpp.V16)
 		fs.onWrite = func(c string, data []byte) {
 			if fr, err := parseFrame(data); err == nil && fr.Type == 2 {
